@@ -618,8 +618,40 @@ def r01_7(ctx) -> None:
     ctx.count("R01.7", n + m, 8, "verify sites + extractor constructions")
 
 
+def r01_8(ctx) -> None:
+    """what was received is kept per token: every container attribute of the JWS message objects (segments, signatures, ...) is
+    bound per instance - a class-level container would be one object for all tokens, and the octets verified for one token could be
+    the octets received for another"""
+    eng = ctx.eng
+    n = 0
+    for c in eng.prog.mod("rfc7515.model").classes:
+        if not any(m in c.methods for m in ("headers", "set_kid")) and not c.name.endswith("Signature"):
+            continue
+        for attr, v in c.class_attrs.items():
+            if v is None or isinstance(v, (ast.Constant, ast.Lambda, ast.Tuple, ast.JoinedStr)):
+                continue
+            if not isinstance(v, (ast.Dict, ast.List, ast.Set, ast.Call, ast.ListComp, ast.DictComp, ast.SetComp)):
+                continue
+            n += 1
+            own = False
+            for k in c.mro:
+                for m in k.methods.values():
+                    sn = m.self_name
+                    if not sn:
+                        continue
+                    for x in fn_nodes(m):
+                        tgs = x.targets if isinstance(x, ast.Assign) else ([x.target] if isinstance(x, ast.AnnAssign) and x.value is not None else [])
+                        if m.name == "__init__" and any(isinstance(t, ast.Attribute) and t.attr == attr and norm(t.value) == sn for t in tgs):
+                            own = True
+            ctx.check(own, "R01.8", c.module.body_fn, v, f"{c.short}.{attr}", f"{c.name}.{attr} is a class-level container that __init__ never replaces: all tokens share it, so "
+                      "what is verified for one token can be what was received for another", "self." + attr + " = ... in __init__", construct=f"class-level container {c.name}.{attr}")
+    # (zero such attributes is the healthy state; the count is informational)
+    ctx.ok("R01.8", "JWS message classes", f"{n} class-level container attribute(s) on the JWS message classes, each replaced per instance")
+
+
 def run(ctx) -> None:
     fam = verify_family(ctx.eng)
+    ctx.guard(r01_8)
     ctx.extra["verify_family"] = [f.short for f in fam]
     ctx.guard(r01_1, fam)
     ctx.guard(r01_2, fam)
